@@ -100,6 +100,11 @@ add("C03", "property-based testing by single-fault injection into generated well
     "Only violations of rule classes named in the property statement are generated. The rejection is not attributed to a particular diagnostic: any error counts (the base differs from the variant only by the injected fault).",
     "DESIGN.md §4 C03")
 
+add("C07", "model-based event-sequence generation (rapid) with an independent loan model as oracle; twin programs; differential run against the reference interpreter",
+    "Generated structured sequences of borrow episodes over variables, field paths and an array element (create &T / &'T or copy a shared reference, statements while the loan is live, last use by read or write-through, accesses after the last use; nesting, blocks, if regions, two &' arguments in one call). Only non-conflicting statements are generated while loans are live; in half of the cases exactly one conflicting access is injected. An independent loan model (textual last use, prefix overlap) labels the result: conflict-free => accepted, run, output equals the reference interpreter's (write-through visibility both ways); injected conflict => rejected and the conflict-free twin accepted. 14 return-of-reference shapes are checked exhaustively on every run (locals rejected, parameter / receiver references accepted and working). Exploration.",
+    "Deliberately coarse model: sibling elements of one array, accesses in the same statement as a use of the reference, mutable reference copies, loans through calls returning references and loops are not generated, because the statement does not settle them.",
+    "DESIGN.md §4 C07")
+
 def main():
     props = [json.loads(l) for l in open(os.path.join(V, "properties.jsonl"))]
     checks, na = [], []
